@@ -69,3 +69,68 @@ func TestUncomparableElements(t *testing.T) {
 	}
 	vlib.Check(t, "uncomparable-elements", 1500, 20000, propUncomparable)
 }
+
+// Part "nil-items": a stream of interface{} items may hold nil items; "ordered by the GIVEN comparator" -
+// the comparator decides where they go (missing values last, nil counts as some key, nil first), nobody else.
+func propNilItems(t *rapid.T) {
+	n := rapid.IntRange(0, 14).Draw(t, "n")
+	in := make([]interface{}, n)
+	desc := make([]string, n)
+	for i := range in {
+		if rapid.IntRange(0, 3).Draw(t, "nil") == 0 {
+			in[i], desc[i] = nil, "nil"
+		} else {
+			v := rapid.IntRange(0, 4).Draw(t, "v")
+			in[i], desc[i] = [2]int{v, i}, fmt.Sprintf("%d#%d", v, i) // key, id (ties keep input order)
+		}
+	}
+	nilKey := rapid.SampledFrom([]int{-1, 2, 99}).Draw(t, "nilKey") // where the comparator puts nil: first, among the 2s, last
+	key := func(x interface{}) int {
+		if x == nil {
+			return nilKey
+		}
+		return x.([2]int)[0]
+	}
+	less := func(a, b interface{}) bool { return key(a) < key(b) }
+	entry := rapid.SampledFrom([]string{"StreamForInterface.Sort", "SortSlice[interface{}]", "Sort[interface{}]"}).Draw(t, "entry")
+	want := refStable(less, in)
+	var got []interface{}
+	p, stack := vlib.Try(func() {
+		work := append([]interface{}(nil), in...)
+		switch entry {
+		case "StreamForInterface.Sort":
+			got = fpgo.StreamForInterface.FromArray(work).Sort(less).ToArray()
+		case "SortSlice[interface{}]":
+			got = fpgo.SortSlice(less, work...)
+		default:
+			fpgo.Sort(less, work)
+			got = work
+		}
+	})
+	vlib.S().Eval("nil-items")
+	hasNil := false
+	for _, x := range in {
+		hasNil = hasNil || x == nil
+	}
+	if hasNil && n >= 2 {
+		vlib.S().NonTrivial("nil-items", fmt.Sprintf("%s|%v|nilKey=%d", entry, desc, nilKey))
+	}
+	key2, msg := "", ""
+	if p != nil {
+		key2, msg = "C19/"+entry+"/panic", fmt.Sprintf("%v\n%s", p, firstFrames(stack))
+	} else if fmt.Sprint(got) != fmt.Sprint(want) {
+		key2, msg = "C19/"+entry+"/order", fmt.Sprintf("items %v (key#id, nil items compare as key %d under the given comparator): result %v, the stable order by the given comparator is %v", desc, nilKey, got, want)
+	}
+	if key2 != "" {
+		if vlib.Fail(t, key2, "%s", msg) {
+			t.Skip("known finding")
+		}
+	}
+}
+
+func TestNilItems(t *testing.T) {
+	if vlib.Replaying() {
+		t.Skip()
+	}
+	vlib.Check(t, "nil-items", 1500, 20000, propNilItems)
+}
